@@ -39,7 +39,8 @@ import (
 )
 
 const (
-	clientUserAgent = "gortsplib"
+	clientUserAgent    = "gortsplib"
+	clientMaxRedirects = 10
 )
 
 func generateLocalSSRCs(existing []uint32, formats []format.Format) (map[uint8]uint32, error) {
@@ -1447,6 +1448,10 @@ func (c *Client) Options(u *base.URL) (*base.Response, error) {
 }
 
 func (c *Client) doDescribe(u *base.URL) (*description.Session, *base.Response, error) {
+	return c.doDescribeRedirect(u, 0)
+}
+
+func (c *Client) doDescribeRedirect(u *base.URL, redirects int) (*description.Session, *base.Response, error) {
 	err := c.checkState(map[clientState]struct{}{
 		clientStateInitial:   {},
 		clientStatePrePlay:   {},
@@ -1483,6 +1488,10 @@ func (c *Client) doDescribe(u *base.URL) (*description.Session, *base.Response, 
 		if res.StatusCode >= base.StatusMovedPermanently &&
 			res.StatusCode <= base.StatusUseProxy &&
 			len(res.Header["Location"]) == 1 {
+			if redirects >= clientMaxRedirects {
+				return nil, nil, fmt.Errorf("too many redirects")
+			}
+
 			c.reset()
 
 			var ru *base.URL
@@ -1502,7 +1511,7 @@ func (c *Client) doDescribe(u *base.URL) (*description.Session, *base.Response, 
 			c.Scheme = ru.Scheme
 			c.Host = ru.Host
 
-			return c.doDescribe(ru)
+			return c.doDescribeRedirect(ru, redirects+1)
 		}
 
 		return nil, res, liberrors.ErrClientBadStatusCode{Code: res.StatusCode, Message: res.StatusMessage}
